@@ -122,7 +122,11 @@ const _: () = assert!(
 
 /// Size of each database page in bytes (16KB).
 /// This is the fundamental unit of I/O and caching.
+#[cfg(not(feature = "kahflane_turdb_verif_small_page"))]
 pub const PAGE_SIZE: usize = 16384;
+/// Verification-only page size (solver-based checks of page-structured code).
+#[cfg(feature = "kahflane_turdb_verif_small_page")]
+pub const PAGE_SIZE: usize = 512;
 
 /// Size of the page header in bytes.
 /// Every page begins with this header containing type, flags, and metadata.
